@@ -307,6 +307,12 @@ func (e *C12) Run(c *core.Ctx, idx int) {
 				rs.Pos = int64(k)
 				return exif2.Parse(rs)
 			}},
+			{"exif2.Parse/positioned-far", func() (exif2.Exif, error) {
+				// the same, with the reader standing at or beyond 2 GiB / 4 GiB of a very large object
+				// (positions are 64-bit; the header offset the search reports is relative to them)
+				base := []int64{1<<31 - 3, 1 << 31, 1<<32 - 4, 1<<32 - int64(len(h)) - int64(fillN) - 2, 1 << 32, 5 << 30, 1<<40 + 7}[fillN%7]
+				return exif2.Parse(&mon.FarRS{Base: base, Data: stream, Pos: base})
+			}},
 		} {
 			var ex exif2.Exif
 			var err error
